@@ -414,9 +414,9 @@ class Worker:
             what = 'ERR:OTHER:Hang' if died is None else f'ERR:OTHER:ProcessDied({died})'
             return dict(req, steps=[('call', what, 'worker')])
         res = json.loads(line)
-        if any(st[2].startswith('collations.py') or st[1] == 'ERR:OTHER:Hang' for st in res['steps']):
-            # an escape inside the collation manager can leave the process-global collation lock held
-            # (C19): later calls would hang for reasons unrelated to their input -> fresh process
+        if any(st[1] == 'ERR:OTHER:Hang' for st in res['steps']):
+            # after a hang the process may hold process-global state (e.g. a collation lock left held): later
+            # calls would hang for reasons unrelated to their input -> fresh process (ask() then confirms the hang)
             self.p.kill()
             self.p.wait()
             self.start()
